@@ -93,12 +93,11 @@ impl<'c, 'view: 'c> NoConstantConditionVisitor<'c, 'view> {
       Expr::Array(arr) => match parent_node {
         Some(Expr::Bin(bin)) => {
           if bin.op == BinaryOp::Add {
+            // a hole (`[,]`) is a constant element
             arr.elems.iter().all(|element| {
-              Self::is_constant(
-                &element.as_ref().unwrap().expr,
-                parent_node,
-                false,
-              )
+              element.as_ref().map_or(true, |element| {
+                Self::is_constant(&element.expr, parent_node, false)
+              })
             })
           } else {
             true
